@@ -162,8 +162,8 @@ def run(an: Analysis, rep):
     if n_pos < 3:
         raise AnalysisError(f"positive control failed: the version-construct scan finds only {n_pos} sites in the from_code closure")
     rep.extra["positive_control_sites_in_from_code_closure"] = n_pos
-    r152(an, rep)
-    r153(an, rep, closure_mods)
+    rep.run(r152, an, rep)
+    rep.run(r153, an, rep, closure_mods)
     rep.stats.update(an.stats(interps))
     rep.assumptions += [
         "json / orjson themselves serialise floats, strings and containers identically on 3.7..3.12",
